@@ -218,6 +218,9 @@ def _snapshot(obj, skip_instance_ids):
         return ("obj", name)
     if t is uuid.UUID:
         return ("uuid",) if skip_instance_ids else obj
+    if name == "MapOrderView":
+        obj = obj.m  # (stubs.MapOrderView: a real Map plus an iteration order; the snapshot is order-free)
+        t = type(obj)
     if t is immutables.Map:
         items = sorted(obj.items(), key=lambda kv: str(kv[0]))
         return ("map", tuple((k, _snapshot(v, skip_instance_ids)) for k, v in items))
